@@ -319,4 +319,4 @@ LEVEL_TEXT = ("Decides on all CFG paths of the process-state code: lock-before-p
 LEVEL_NOTE = "Trusted: rustc MIR; the file-role identification by path provenance (generate_*_path / *_path fields). Not decided: kernel lock behaviour."
 TECHNIQUE = "static analysis: MIR dominance, only-under-arm and no-error-after-effect path rules over the process-state protocol"
 
-THOROUGH_UNIVERSES = ['dev_permissions']
+THOROUGH_UNIVERSES = ['dev_permissions', 'no_std']
